@@ -17,6 +17,14 @@ func New(r bufio.Reader) LexerReader {
 	content, _ := io.ReadAll(&r)
 	runes := []rune(string(content))
 
+	// Read reports end of input as rune 0, so an embedded NUL byte must not
+	// reach the lexer as 0 (it would end the token stream in mid-file).
+	for i, r := range runes {
+		if r == 0 {
+			runes[i] = ' '
+		}
+	}
+
 	return LexerReader{
 		runes:    runes,
 		pos:      0,
